@@ -867,7 +867,40 @@ func gateLike(ifi *ssa.If) (bool, int) {
 func checkWrapperAgreement(c *Ctx, r *Report, gate *connGate) {
 	// wrapper: static callee in attempt functions whose first param and single result are `error`
 	var wrapper *ssa.Function
+	onRT := false
+	var fromRoundTrip func(v ssa.Value, d int, seen map[ssa.Value]bool) bool
+	fromRoundTrip = func(v ssa.Value, d int, seen map[ssa.Value]bool) bool {
+		v = stripConv(v)
+		if v == nil || d == 0 || seen[v] {
+			return false
+		}
+		seen[v] = true
+		switch x := v.(type) {
+		case *ssa.Extract:
+			if call, ok := x.Tuple.(*ssa.Call); ok {
+				return describeCall(&call.Call).Name == "RoundTrip"
+			}
+		case *ssa.Parameter:
+			for _, b := range paramBindings[x] {
+				if fromRoundTrip(b, d-1, seen) {
+					return true
+				}
+			}
+		case *ssa.Phi:
+			for _, e := range x.Edges {
+				if fromRoundTrip(e, d-1, seen) {
+					return true
+				}
+			}
+		}
+		return false
+	}
+	var scope []*ssa.Function
 	for _, af := range attemptFuncs(c) {
+		// the attempt function and the helpers of its package it calls (`return s.failAttempt(ctx, endpoint, stats, err, …)`)
+		scope = append(scope, withHelpers(af, 2)...)
+	}
+	for _, af := range scope {
 		eachInstr(af, func(in ssa.Instruction) {
 			cc := getCall(in)
 			if cc == nil {
@@ -878,7 +911,13 @@ func checkWrapperAgreement(c *Ctx, r *Report, gate *connGate) {
 				return
 			}
 			if sc.Signature.Results().At(0).Type().String() == "error" && sc.Signature.Params().At(0).Type().String() == "error" {
-				wrapper = sc
+				// the wrapper is the one applied to the RoundTrip error; another error→error helper on the way (`streamErr :=
+				// endOfBodyAsNil(err)`) is not it
+				if fromRoundTrip(cc.Args[0], 4, map[ssa.Value]bool{}) {
+					wrapper, onRT = sc, true
+				} else if !onRT {
+					wrapper = sc
+				}
 			}
 		})
 	}
